@@ -15,12 +15,12 @@ def handleGated (args impl : List String) : Option (String × String) := do
   if m = "bad-impl" then pure (m, "bad-impl") else
   pure (m, if SpecC05.holds cap bs then "ok" else "fail")
 
-/-! c05.free <kind> <cap> <n> <iters> <seed> | g<r>.<e> b<r> u<n> … [wedged] end <inUse> <waiters> -/
+/-! c05.free <kind> <cap> <n> <iters> <seed> | g<r>.<e> b<r> u<n> … [wedged] max <m> end <inUse> <waiters> -/
 
 def parseFree : Nat → List String → Option (List SpecC05.FOp)
   | _, [] => some []
   | 0, _ => none
-  | _ + 1, ["end", a, w] => do pure [.fin (← Tok.nat? a) (← Tok.nat? w)]
+  | _ + 1, ["max", m, "end", a, w] => do pure [.maxHeld (← Tok.nat? m), .fin (← Tok.nat? a) (← Tok.nat? w)]
   | k + 1, t :: ts => do
     let rest ← parseFree k ts
     if t = "wedged" then pure (.wedged :: rest) else
